@@ -23,9 +23,12 @@ const (
 	kComposeFlat  = "composefs-flat"
 	kComposeNest  = "composefs-nested"
 	kComposeLocal = "composefs-localfs"
+	// a staticfs with n files mounted in a composefs: its listing passes
+	// through the mount's QID translation on every Readdir call
+	kComposeStatic = "composefs-staticfs"
 )
 
-var kinds = []string{kLocal, kStatic, kComposeFlat, kComposeNest, kComposeLocal}
+var kinds = []string{kLocal, kStatic, kComposeFlat, kComposeNest, kComposeLocal, kComposeStatic}
 
 // Ways to list.
 const (
@@ -215,6 +218,20 @@ func newInstance(kind string, l, n int) *instance {
 		must(err)
 		in.att = a
 		in.dirPath = []string{"mnt"}
+	case kComposeStatic:
+		var opts []staticfs.Option
+		for i, name := range in.names {
+			opts = append(opts, staticfs.WithFile(name, fmt.Sprintf("content %d", i)))
+		}
+		sa, err := staticfs.New(opts...)
+		must(err)
+		a, err := composefs.New(
+			composefs.WithFile("top-file", staticfs.ReadOnlyFile("top")),
+			composefs.WithMount("smnt", sa),
+		)
+		must(err)
+		in.att = a
+		in.dirPath = []string{"smnt"}
 	default:
 		panic("c19: unknown kind " + kind)
 	}
